@@ -5,7 +5,7 @@ CFG = {
                               "header_frame_kind_invalid_iff", "stream_ids_partition", "stream_ids_fit",
                               "dispatch_isolation", "dispatch_faithful", "reader_sees_its_session",
                               "reader_stops_at_close", "close_only_counterpart", "eos_only_after_close",
-                              "permits_conserved", "buffered_bounded", "open_streams_le_min", "halves_held_once",
+                              "permits_conserved", "buffered_bounded", "permits_return_when_consumed", "open_streams_le_min", "halves_held_once",
                               "sender_wire_wellformed", "sender_session_bytes", "sender_frames_bounded",
                               "scheduler_stays_reachable"],
         "technique": "Lean 4: labelled transition system of one Mux instance (Model/Mux.lean, events = code between two awaits), "
@@ -39,8 +39,13 @@ CFG = {
                 "hand-over (6), transport EOF (1), never-reading application with a sender ignoring flow control (10) - "
                 "then N random sessions: 40% cooperative raw peer, 20% raw peer with unsolicited frames, 10% flood, 10% reuse, "
                 "20% two real Mux instances back to back with tagged byte streams. Each op is followed by run-to-quiescence "
-                "(runtime on_thread_park). Non-trivial = distinct op lines whose observation class differs from the modal one",
-        "trusted": ["harness quiescence detection (tokio current-thread runtime, on_thread_park fires only when no task is "
+                "(runtime on_thread_park); corpus/C14 holds two sessions in which several streams of one capability race for "
+                "StreamQueue::push. Non-trivial = distinct op lines whose observation class differs from the modal one",
+        "trusted": ["scheduling advice: the generator runs every session once on the real Mux and records, per op, the order in "
+                    "which the runtime let reusable streams through StreamQueue::push ('adv' in the op line); the model's "
+                    "deterministic scheduler follows it. The advice only selects one interleaving among those the LTS "
+                    "allows (scheduler_stays_reachable); every observable of the op is still compared",
+                    "harness quiescence detection (tokio current-thread runtime, on_thread_park fires only when no task is "
                     "runnable) and its in-memory transport",
                     "the Debug output of mux::WriteStream, from which the hook reads (stream kind, stream id)"],
         "assumptions": ["tokio Semaphore: acquire_many(n) completes iff n <= available (single acquirer), permits return on drop",
